@@ -378,8 +378,10 @@ def linkify(
 
             if url != before_clip:
                 amp = url.rfind("&")
-                # avoid splitting html char entities
-                if amp > max_len - 5:
+                # avoid splitting html char entities: every "&" in a matched
+                # url starts "&amp;" or "&quot;", so one with no ";" after it
+                # has been cut by the clipping above (wherever it lies)
+                if amp != -1 and ";" not in url[amp:]:
                     url = url[:amp]
                 url += "..."
 
